@@ -48,6 +48,10 @@ func c08Session(t *rapid.T) {
 	if rapid.IntRange(0, 3).Draw(t, "exact") == 0 {
 		margs = append(margs, "--exact")
 	}
+	if rapid.IntRange(0, 3).Draw(t, "noExtended") == 0 {
+		// the query is one term, blanks included
+		margs = append(margs, "+x")
+	}
 	margs = append(margs, "--delimiter", ",")
 	startNth := rapid.SampledFrom([]string{"", "1", "2.."}).Draw(t, "startNth")
 	sessDirFifo := ""
@@ -193,7 +197,7 @@ func c08Session(t *rapid.T) {
 		body := ""
 		switch op {
 		case "put":
-			c := rapid.SampledFrom([]string{"a", "b", "1", "z", "A", " ", "'", "^", "!", "|", "-"}).Draw(t, "ch")
+			c := rapid.SampledFrom([]string{"a", "b", "1", "z", "A", " ", " ", "'", "^", "!", "|", "-", "\\"}).Draw(t, "ch")
 			query += c
 			body = "put(" + c + ")"
 		case "backspace":
